@@ -1044,8 +1044,12 @@ inline bool Transport::setReadMode(SessionId sid, ReadMode mode)
       oldMode = it->second;
     }
 
-    // If NOT switching from Sync to Async, update mode directly
-    if (!(oldMode == ReadMode::Sync && mode == ReadMode::Async))
+    // If NOT switching to Async from a mode that may have left bytes in the sync
+    // buffer, update mode directly. Sync->Async obviously can; Disabled->Async can
+    // too (Sync -> Disabled keeps what was buffered while Sync, and Disabled only
+    // drops NEW arrivals): without the flush those bytes would stay buffered while
+    // later-arriving bytes go straight to the callback - reordered or lost.
+    if (!(oldMode != ReadMode::Async && mode == ReadMode::Async))
     {
       _impl->readModes[sid] = mode;
 
@@ -1061,9 +1065,10 @@ inline bool Transport::setReadMode(SessionId sid, ReadMode mode)
     }
   } // syncMutex released
 
-  // Step 2: Sync→Async transition with ordered flush.
-  // Keep mode as Sync during flush so the I/O thread continues buffering
-  // any data that arrives mid-flush. Drain in a loop until empty.
+  // Step 2: Sync→Async (or Disabled→Async) transition with ordered flush.
+  // Keep the old mode during the flush: in Sync the I/O thread continues buffering
+  // any data that arrives mid-flush (drained by the loop below), in Disabled it
+  // keeps dropping until the switch completes. Drain in a loop until empty.
   DataCallback cb;
   {
     std::lock_guard<std::mutex> cbLk(_impl->callbackMutex);
